@@ -666,5 +666,80 @@ Section MerkleProofs.
       rewrite G. auto.
     Qed.
 
+
+    (* root derivation WITHOUT the index-range test (Shred::slice_root / derive_root): it still binds the
+       leaf to position (index mod 2^height) of the tree, and the path length to the height *)
+    Lemma derive_fst_alias : forall p x i k,
+      fst (derive x (i + k * 2 ^ N.of_nat (length p)) p) = fst (derive x i p).
+    Proof.
+      induction p as [|s p IH]; intros x i k; [reflexivity|].
+      cbn [Merkle.derive length]. rewrite pow2_S.
+      assert (Ev : N.even (i + k * (2 * 2 ^ N.of_nat (length p))) = N.even i).
+      { replace (i + k * (2 * 2 ^ N.of_nat (length p)))%N with (i + 2 * (k * 2 ^ N.of_nat (length p)))%N by lia.
+        apply N.even_add_mul_2. }
+      rewrite Ev.
+      replace (N.div2 (i + k * (2 * 2 ^ N.of_nat (length p)))) with (N.div2 i + k * 2 ^ N.of_nat (length p))%N.
+      - apply IH.
+      - rewrite !N.div2_div. lia.
+    Qed.
+
+    Theorem derive_root_sound : forall d i p,
+      fst (derive (hash_leaf d) i p) = root lv ->
+      Collision \/ (length p = ht /\ hash_leaf d = node lv 0 (i mod 2 ^ N.of_nat ht)).
+    Proof.
+      intros d i p E.
+      set (w := (2 ^ N.of_nat (length p))%N).
+      assert (Wpos : (0 < w)%N) by (apply N.neq_0_lt_0, N.pow_nonzero; lia).
+      assert (Ei : i = (i mod w + (i / w) * w)%N) by (assert (X := N.div_mod' i w); lia).
+      assert (E' : fst (derive (hash_leaf d) (i mod w) p) = root lv).
+      { rewrite <- E. rewrite Ei at 2. unfold w. symmetry. apply derive_fst_alias. }
+      assert (Hlt : (i mod w < w)%N) by (apply N.mod_lt; lia).
+      assert (Hc : Merkle.check hash_pair H_eqb (length p) (hash_leaf d) (i mod w) (root lv) p = true).
+      { unfold Merkle.check. rewrite Nat.leb_refl. cbn [andb].
+        rewrite derive_snd. rewrite N.shiftr_div_pow2. fold w. rewrite N.div_small by exact Hlt.
+        cbn [N.eqb andb]. rewrite E'. apply H_eqb_spec. reflexivity. }
+      assert (PS : Collision \/ (length p = ht /\ (i mod w < 2 ^ N.of_nat ht)%N /\ hash_leaf d = node lv 0 (i mod w))).
+      { unfold Merkle.check in Hc.
+        (* re-run the argument of proof_sound with max_height := length p *)
+        apply andb_prop in Hc. destruct Hc as [Hc Hr]. apply andb_prop in Hc. destruct Hc as [_ Hz].
+        apply H_eqb_spec in Hr. apply N.eqb_eq in Hz. rewrite derive_snd in Hz.
+        apply shiftr_zero_lt in Hz. rewrite root_node in Hr.
+        destruct (le_lt_dec (length p) ht) as [Hle | Hgt].
+        - assert (Eq : fst (derive (hash_leaf d) (i mod w) p) = node lv ((ht - length p) + length p) 0).
+          { replace (ht - length p + length p) with ht by lia. exact Hr. }
+          destruct (sound_core p (ht - length p) 0 _ (i mod w) ltac:(lia) Hz Eq) as [C | Ex];
+            [left; left; exact C|].
+          cbn [N.mul N.add] in Ex.
+          destruct (Nat.eq_dec (length p) ht) as [Heq | Hne].
+          + right. rewrite Heq in *. replace (ht - ht) with 0 in Ex by lia. auto.
+          + left. right. destruct (ht - length p) as [|h'] eqn:Eh; [lia|].
+            rewrite node_step in Ex by lia. red. eauto.
+        - left.
+          set (k := length p - ht).
+          assert (Hsplit : p = firstn k p ++ skipn k p) by (symmetry; apply firstn_skipn).
+          assert (L2 : length (skipn k p) = ht) by (rewrite skipn_length; unfold k; lia).
+          assert (L1 : firstn k p <> []).
+          { intro E0. assert (length (firstn k p) = 0) by (rewrite E0; reflexivity).
+            rewrite firstn_length in H0. unfold k in H0. lia. }
+          rewrite Hsplit, derive_app in Hr.
+          destruct (derive_nonempty_pair (firstn k p) (hash_leaf d) (i mod w) L1) as [a [b Eab]].
+          assert (Hz2 : (snd (derive (hash_leaf d) (i mod w) (firstn k p)) < 2 ^ N.of_nat (length (skipn k p)))%N).
+          { rewrite derive_snd. rewrite firstn_length. replace (Nat.min k (length p)) with k by (unfold k; lia).
+            rewrite L2. rewrite N.shiftr_div_pow2. apply N.div_lt_upper_bound; [apply N.pow_nonzero; lia|].
+            rewrite <- N.pow_add_r. replace (N.of_nat k + N.of_nat ht)%N with (N.of_nat (length p)) by (unfold k; lia).
+            exact Hz. }
+          assert (Eq : fst (derive (fst (derive (hash_leaf d) (i mod w) (firstn k p)))
+                            (snd (derive (hash_leaf d) (i mod w) (firstn k p))) (skipn k p))
+                      = node lv (0 + length (skipn k p)) 0).
+          { rewrite L2. exact Hr. }
+          assert (Hle0 : 0 + length (skipn k p) <= ht) by lia.
+          destruct (sound_core (skipn k p) 0 0 _ _ Hle0 Hz2 Eq) as [C | Ex]; [left; exact C|].
+          right. rewrite Eab in Ex.
+          destruct (node0_leaf_hash (0 * 2 ^ N.of_nat (length (skipn k p)) + snd (derive (hash_leaf d) (i mod w) (firstn k p)))) as [d' Ed'].
+          rewrite Ed' in Ex. red. eauto. }
+      destruct PS as [C | [Hl [_ Hx]]]; [left; exact C|].
+      right. split; [exact Hl|]. unfold w in Hx. rewrite Hl in Hx. exact Hx.
+    Qed.
+
   End Tree.
 End MerkleProofs.
